@@ -140,7 +140,9 @@ def agent_for_socks_port(reactor, torconfig, socks_config, pool=None,
         ``BrowserLikePolicyForHTTPS`` is used.
     """
     socks_config = str(socks_config)  # sadly, all lists are lists-of-strings to Tor :/
-    if socks_config not in torconfig.SocksPort:
+    # a configured line may carry options after the port ("9050 IsolateDestAddr")
+    configured = [str(line).split()[0] for line in torconfig.SocksPort if str(line).split()]
+    if socks_config not in torconfig.SocksPort and socks_config not in configured:
         txtorlog.msg("Adding SOCKS port '{}' to Tor".format(socks_config))
         torconfig.SocksPort.append(socks_config)
         try:
